@@ -10,6 +10,7 @@ import (
 	"fmt"
 	"io"
 	"math/big"
+	"net"
 	"net/http"
 	"runtime"
 	"sort"
@@ -327,6 +328,14 @@ func runConnInner(args []string) string {
 			case '2':
 				return nil, context.Canceled
 			}
+			// the flavour of a transport failure follows from the attempt number: plain, a refused dial, a failed read —
+			// every one of them is a failed attempt like any other (the body is re-obtained, the header is set)
+			switch i % 3 {
+			case 1:
+				return nil, &net.OpError{Op: "dial", Net: "tcp", Err: errTransport}
+			case 2:
+				return nil, &net.OpError{Op: "read", Net: "tcp", Err: errTransport}
+			}
 			return nil, errTransport
 		case 'V':
 			if cur.sub == '1' {
@@ -641,20 +650,30 @@ func runReg(args []string) string {
 	ctx, cancel := context.WithCancel(context.Background())
 	defer cancel()
 	body := &steppedBody{feed: make(chan []byte), waiting: make(chan struct{})}
+	// mode "w": the stepped stream is the connection's second one; the first was cut inside an event that had already
+	// named its type and ID (nothing of it may colour what the callbacks are given afterwards)
+	attempts := 0
 	client := sse.Client{
 		HTTPClient: &http.Client{Transport: rtFunc(func(r *http.Request) (*http.Response, error) {
 			if ctx.Err() != nil {
 				return nil, ctx.Err()
+			}
+			attempts++
+			if args[0] == "w" && attempts == 1 {
+				return &http.Response{StatusCode: 200, Header: http.Header{}, Body: io.NopCloser(strings.NewReader("event: cut-off\nid: cut-off\ndata: x")), Request: r}, nil
 			}
 			return &http.Response{StatusCode: 200, Header: http.Header{}, Body: body, Request: r}, nil
 		})},
 		ResponseValidator: sse.NoopValidator,
 		Backoff:           sse.Backoff{InitialInterval: time.Hour, Jitter: -1, Multiplier: 1, MaxRetries: -1},
 	}
+	if args[0] == "w" {
+		client.Backoff = sse.Backoff{InitialInterval: time.Millisecond, Jitter: -1, Multiplier: 1, MaxRetries: 1}
+	}
 	req, _ := http.NewRequestWithContext(ctx, http.MethodGet, "http://verif.invalid/", http.NoBody)
 	c := client.NewConnection(req)
 	connDone := make(chan error, 1)
-	if args[0] == "c" {
+	if args[0] == "c" || args[0] == "w" {
 		go func() { connDone <- c.Connect() }()
 		<-body.waiting
 	}
@@ -710,7 +729,7 @@ func runReg(args []string) string {
 			log = append(log, nil)
 			data := fmt.Sprintf("x%d", evIdx)
 			mu.Unlock()
-			if args[0] == "c" {
+			if args[0] == "c" || args[0] == "w" {
 				text := "data: " + data + "\n\n"
 				if t != "" {
 					text = "event: " + t + "\n" + text
@@ -722,7 +741,7 @@ func runReg(args []string) string {
 			}
 		}
 	}
-	if args[0] == "c" {
+	if args[0] == "c" || args[0] == "w" {
 		cancel()
 		close(body.feed)
 		<-connDone
